@@ -23,6 +23,8 @@ from props.common import U, recording, term
 
 ID = "C08"
 RULE = (
+    "[representations] the three arguments are passed as tuples instead of lists in every case with an odd number of clip entries; annotations with two "
+    "vocabulary tags occur in both orders. "
     "one_clip: every pair (annotated list, predicted list) with 0..2 events each; an annotated event = geometry in "
     "{none, A, B overlapping A, C disjoint} x tags; a predicted event = geometry x score vector over the 2-tag vocabulary "
     "(quick: 3 tag sets x 3 vectors; thorough: 5 x 10; both incl. out-of-vocabulary annotated and predicted tags). clips: two clip slots x "
